@@ -164,6 +164,70 @@ def check_matches(path, allf, matches, stats, kind=None, data=None):
     return probs
 
 
+def check_derivs(deriv_path, codelen_path, uniq, stats):
+    """Structure of the second-derivative table: one row per unique function, each holding the upper triangle of an
+    n x n matrix, n = number of parameter columns of the table written next to it by the same stage."""
+    probs = []
+    drows = read_table(deriv_path)
+    crows = read_table(codelen_path)
+    if len(drows) != len(uniq):
+        return [('rows', 'derivs', len(drows), len(uniq))]
+    if not crows:
+        return probs
+    n = len(crows[0]) - 2
+    want = n * (n + 1) // 2
+    for i, r in enumerate(drows):
+        if len(r) != want:
+            probs.append(('derivs-width', i, len(r), want))
+            break
+    stats['derivs_rows_checked'] = stats.get('derivs_rows_checked', 0) + len(drows)
+    return probs
+
+
+def check_identity_variants(matches_path, codelen_path, deriv_path, allf, uniq, matches, chains, stats):
+    """Row i of the match stage refers to function i - cross-stage form.  A function whose text IS its unique function and
+    whose recorded chain is empty receives the unique's parameters untransformed, so in the plain case (every stored parameter
+    of the unique non-zero and at least one precision step away from zero, positive finite second derivatives, finite
+    likelihood and code length) the match stage evaluates the same closed form on the same stored numbers as the previous
+    stage: codelen = -k/2 ln 3 + sum(1/2 ln H_jj + ln|p_j|).  The expected value is recomputed here from the two input
+    files of the match stage; likelihood and parameters must be carried over unchanged."""
+    probs = []
+    mrows = read_table(matches_path)
+    crows = read_table(codelen_path)
+    drows = read_table(deriv_path)
+    if len(mrows) != len(allf) or len(crows) != len(uniq) or len(drows) != len(uniq) or not crows:
+        return probs                  # row counts are reported by the other oracles
+    n = len(crows[0]) - 2
+    if any(len(r) != n * (n + 1) // 2 for r in drows):
+        return probs
+    for i, f in enumerate(allf):
+        j = matches[i]
+        if not (0 <= j < len(uniq)) or uniq[j] != f or (chains[i] if i < len(chains) else '').strip():
+            continue
+        k = nparams(f)
+        if k == 0 or k > n:
+            continue
+        cl_u, nll_u, p_u = crows[j][0], crows[j][1], crows[j][2:2 + k]
+        if not (math.isfinite(cl_u) and math.isfinite(nll_u) and abs(nll_u) < 1e100):
+            continue
+        diag = [drows[j][int(a * n - (a - 1) * a / 2)] for a in range(k)]
+        if any((not math.isfinite(h)) or h <= 0 for h in diag) or any(p == 0 or not math.isfinite(p) for p in p_u):
+            continue
+        nsteps = [abs(p) / math.sqrt(12.0 / h) for p, h in zip(p_u, diag)]
+        if min(nsteps) < 1.05:        # at (or within rounding of) the snapping threshold the stages may legitimately differ
+            continue
+        want = -k / 2.0 * math.log(3.0) + sum(0.5 * math.log(h) + math.log(abs(p)) for p, h in zip(p_u, diag))
+        nll_m, cl_m, p_m = mrows[i][0], mrows[i][1], mrows[i][3:3 + k]
+        stats['identity_variants_checked'] = stats.get('identity_variants_checked', 0) + 1
+        if not (math.isfinite(cl_m) and abs(cl_m - want) <= 1e-4 + 1e-5 * abs(want)):
+            probs.append(('identity-variant-codelen', i, f, cl_m, want))
+            break
+        if not close(nll_m, nll_u, rel=1e-6) or any(not close(a, b, rel=1e-6, abs_=0.0) for a, b in zip(p_m, p_u)):
+            probs.append(('identity-variant-row', i, f, [nll_m] + p_m, [nll_u] + p_u))
+            break
+    return probs
+
+
 def read_final(path):
     with open(path) as f:
         return [r for r in csv.reader(f, delimiter=';')]
